@@ -8,6 +8,8 @@
 From RV Require Import Model.Base Model.StylePrims Gen.LeafStyle Model.TreeValid Model.Style Proofs.Style.
 From RV Require Import Model.GeomPrims Model.ObbPrims Gen.LeafObb Model.Obb Proofs.Obb.
 From RV Require Import Model.ObbFilter Proofs.ObbFilter.
+From RV Require Import Model.FilterParPrims Gen.LeafFilterPar Model.FilterPar Proofs.FilterPar.
+From RV Require Import Model.ShapePath Gen.ShapePaths Model.PathValid Proofs.PathValid.
 Local Open Scope Q_scope.
 
 (* --- stroke ------------------------------------------------------------------------------- *)
@@ -307,3 +309,85 @@ Example C04_nv_filter_regions :
                               (Some {| rx := 10; ry := 10; rw := 40; rh := 80 |}) = Some (r, ps)
               /\ map rp_par ps = [RP_blur 0 ((1 # 8) * 80)].
 Proof. eexists. eexists. vm_compute. split; reflexivity. Qed.
+
+(* === extension round 4, second pass ======================================================================== *)
+(* --- the path clause (C04_path_len): the PathBuilder model and the builder scripts of the shapes are C10's
+   (Model/ShapePath.v; Gen/ShapePaths.v transcribed from shapes.rs on every run), imported read-only ------------ *)
+Module P := RV.Model.PathValid.
+Module S := RV.Model.ShapePath.
+Module G := RV.Gen.ShapePaths.
+(* EVERY sequence of builder calls (move / line / quad / cubic / arc / close): what finish() hands out has at least two
+   segments, starts with a move and never has two moves in a row; everything else is rejected (None) *)
+Theorem C04_path_len : forall l : list S.bop, P.opath_valid (S.pb_finish (S.run_script l S.pb_new)) = true.
+Proof. exact RV.Proofs.PathValid.script_valid. Qed.
+Print Assumptions C04_path_len.
+
+(* path data: every list of simplified segments (what svgtypes' SimplifyingPathParser yields) *)
+Theorem C04_path_data_valid : forall d, P.opath_valid (G.convert_path d) = true.
+Proof. exact RV.Proofs.PathValid.convert_path_valid. Qed.
+Print Assumptions C04_path_data_valid.
+(* what finish() rejects / accepts: moves alone never give a path; any drawing segment does *)
+Theorem C04_path_data_only_moves_rejected : forall d, forallb RV.Proofs.PathValid.only_move d = true -> G.convert_path d = None.
+Proof. exact RV.Proofs.PathValid.convert_path_only_moves. Qed.
+Print Assumptions C04_path_data_only_moves_rejected.
+Theorem C04_path_data_drawing_accepted : forall d, existsb P.draws d = true -> exists p, G.convert_path d = Some p.
+Proof. exact RV.Proofs.PathValid.convert_path_draws. Qed.
+Print Assumptions C04_path_data_drawing_accepted.
+
+(* basic shapes: polyline, polygon, line, ellipse, circle, rect (rounded or not): a valid path or nothing, all inputs *)
+Theorem C04_shape_paths_valid :
+  (forall pts, P.opath_valid (G.convert_polyline pts) = true) /\
+  (forall pts, P.opath_valid (G.convert_polygon pts) = true) /\
+  (forall x1 y1 x2 y2, P.opath_valid (G.convert_line x1 y1 x2 y2) = true) /\
+  (forall cx cy rx ry, P.opath_valid (G.convert_ellipse cx cy rx ry) = true) /\
+  (forall cx cy r, P.opath_valid (G.convert_circle cx cy r) = true) /\
+  (forall x y w h rx ry, P.opath_valid (G.rect_path x y w h rx ry) = true).
+Proof. exact RV.Proofs.PathValid.shapes_valid. Qed.
+Print Assumptions C04_shape_paths_valid.
+
+Example C04_nv_path_data :
+  G.convert_path [S.PMove 1 1; S.PMove 2 2; S.PLine 3 3; S.PClose; S.PLine 4 4] = Some [S.SM 2 2; S.SL 3 3; S.SZ; S.SM 2 2; S.SL 4 4]
+  /\ G.convert_path [S.PMove 1 1; S.PClose] = Some [S.SM 1 1; S.SZ] /\ G.convert_path [S.PMove 1 1; S.PMove 2 2] = None
+  /\ G.convert_path [S.PLine 5 5] = Some [S.SM 0 0; S.SL 5 5].
+Proof. vm_compute. repeat split; reflexivity. Qed.
+
+(* --- filter primitive parameters: the clamps and guards of parser/filter.rs (Gen/LeafFilterPar.v, rs2coq over xq) --- *)
+(* stdDeviation: finite and not negative for ALL numbers and scales: NaN, infinities, products that overflow f32 *)
+Theorem C04_filter_std_dev_valid : forall x y sc,
+  xq_nonneg_fin (fst (xstd_dev_scaled x y sc)) = true /\ xq_nonneg_fin (snd (xstd_dev_scaled x y sc)) = true.
+Proof. exact std_dev_valid. Qed.
+Print Assumptions C04_filter_std_dev_valid.
+
+(* feConvolveMatrix (since 25cbad3), FULL strength over the f32-overflow model: for ALL divisor attributes and ALL kernel
+   sums (finite, +-inf from an overflowing sum or rounding step, NaN) a stored divisor is finite and is accepted by
+   NonZeroF32::new (the unwrap cannot panic); otherwise the primitive becomes the transparent dummy *)
+Theorem C04_convolve_divisor_finite_nonzero : forall attr ks d, convolve_divisor attr ks = Some d ->
+  xq_finite d = true /\ exists v, nonzero_new d = Some v.
+Proof. exact divisor_finite_nonzero. Qed.
+Print Assumptions C04_convolve_divisor_finite_nonzero.
+(* the former witness (nine entries of 2^108: finite sum, the rounding step overflows) is rejected now *)
+Example C04_nv_convolve_overflow_fixed :
+  forallb xq_finite big_kernel = true /\ xq_finite (kernel_sum big_kernel) = true /\ kernel_round (kernel_sum big_kernel) = PInf /\
+  convolve_div None big_kernel = None.
+Proof. exact big_kernel_rejected. Qed.
+Theorem C04_convolve_order_target : forall x y tx ty vx vy,
+  let '(ox, oy) := resolve_order x y in
+  parse_target tx ox = Some vx -> parse_target ty oy = Some vy -> (0 < ox /\ 0 < oy /\ 0 <= vx < ox /\ 0 <= vy < oy)%Z.
+Proof.
+  intros x y tx ty vx vy. pose proof (order_positive x y) as [A B]. destruct (resolve_order x y) as [ox oy]. simpl in A, B.
+  intros H1 H2. apply target_in_range in H1, H2. repeat split; try assumption; lia.
+Qed.
+Print Assumptions C04_convolve_order_target.
+Theorem C04_specular_exponent_range : forall e, spec_exp_ok e = true -> exists q, e = Fin q /\ 1 <= q <= 128.
+Proof. exact spec_exp_range. Qed.
+Print Assumptions C04_specular_exponent_range.
+Theorem C04_num_octaves_not_negative : forall attr, xq_sign_negative (num_octaves_clamped attr) = false.
+Proof. exact octaves_not_negative. Qed.
+Print Assumptions C04_num_octaves_not_negative.
+
+Example C04_nv_filter_par :
+  xstd_dev_scaled NaN (Fin (1 # 8)) (Fin 40, Fin 80) = (Fin 0, Fin ((1 # 8) * 80))
+  /\ convolve_div None [Fin 1; Fin 1; Fin 1] = Some (Fin (3000000 / 1000000)) /\ convolve_div None [Fin 1; Fin (-(1))] = Some (Fin 1)
+  /\ convolve_div (Some (Fin 0)) [Fin 1] = None /\ spec_exp_ok (Fin (257 # 2)) = false /\ parse_target None 3 = Some 1%Z
+  /\ parse_target (Some 3%Z) 3 = None.
+Proof. vm_compute. repeat split; reflexivity. Qed.
